@@ -207,6 +207,41 @@ def units_from_patterns(rng):
     return sorted(out)
 
 
+def words_from_patterns():
+    """maximal runs of two or more literal characters in the regenerated patterns ('thru', 'and', 'of', 'the', …): whatever
+    connective a pattern knows — also one added tomorrow — is pumped between list items, with and without a period"""
+    meta = tier1.load_meta()
+    import re._parser as sre_parse
+    from re._constants import LITERAL
+    out = set()
+
+    def walk(items):
+        run = ''
+        for op, av in items:
+            if op == LITERAL:
+                run += chr(av)
+                continue
+            if len(run) >= 2:
+                out.add(run)
+            run = ''
+            if isinstance(av, (tuple, list)):
+                for x in av:
+                    if isinstance(x, sre_parse.SubPattern):
+                        walk(x)
+                    elif isinstance(x, (list, tuple)):
+                        for y in x:
+                            if isinstance(y, sre_parse.SubPattern):
+                                walk(y)
+        if len(run) >= 2:
+            out.add(run)
+    for name in meta:
+        try:
+            walk(sre_parse.parse(meta[name]['pattern'], meta[name]['flags']))
+        except Exception:  # noqa
+            pass
+    return sorted(w for w in out if w.strip() and not w.isdigit())
+
+
 PAIR_TOKENS = ['of', 'NE', 'SW', 'N½', 'NE¼', 'N', ' ', '\n', '\t', ',', '.', ';', ':', '-', '&', 'and', 'thru', 'to', 'the', 't', 'o',
                'f', '1', '2', 'Lot', 'Sec', 'L', 'T', 'R', 'W', 'P', 'M', '(', ')', '/', '4', 'e', 's', 'h', 'i', 'a', 'r']
 
@@ -246,6 +281,12 @@ def run(ctx):
         for b in seps:
             item_units += [f'1{a}{b}2, ', f'3{a}{b}', f', Sec{a}{b}4', f'{a} 5{b}']
     item_units += ['Sec. 1, ', 'Sec 1, ', 'Section 1 ', '1 and 2, ', '1 thru. 2; ', 'Lot 1, ', 'L1,', 'Lot. 1 & ', '1 to 2 ', '§ 1, ']
+    # every literal word of the regenerated patterns as a connective / qualifier inside a list of ranges and of singles
+    pattern_words = words_from_patterns()
+    rep.extra['pattern_words'] = len(pattern_words)
+    for w in pattern_words:
+        for ww in (w, w + '.'):
+            item_units += [f'1-2 {ww}, ', f'3 {ww} 4, ']
     for u in dict.fromkeys(item_units):
         for pfx, sfxs in (('T154N-R97W Sec ', [' T155N-R97W Sec 1: NE/4', ': NE/4', ' x']), ('Sections ', [' T154N-R97W: NE/4', ' x']),
                           ('T154N-R97W Sec 14: Lots ', [' x', ' NE/4'])):
